@@ -65,6 +65,7 @@ func Root() string {
 
 // New reads the environment (VERIF_TIER, VERIF_SEED, VERIF_BUDGET_S, VERIF_REPLAY).
 func New(prop, level string) *Run {
+	supervise(prop, level)
 	r := &Run{Prop: prop, Level: level, Tier: "quick", Root: Root(), Start: time.Now(),
 		cov: map[string]any{}, seenFP: map[string]bool{}}
 	if t := os.Getenv("VERIF_TIER"); t == "thorough" {
@@ -213,6 +214,7 @@ func FPKey(fp string) string {
 // Finish writes the evidence file, the artefacts, prints the verdict lines and exits.
 func (r *Run) Finish() {
 	code := r.finish()
+	markFinished()
 	os.Exit(code)
 }
 
